@@ -81,7 +81,7 @@ impl Monitor for C16 {
 		"C16"
 	}
 	fn rule(&self) -> String {
-		"metadata trees over {string <= 255 bytes of UTF-8, int32, map} are generated (absent, empty, nesting chains 2..127 deep, wide maps, hundreds of sibling sub-maps, reverse-sorted and shuffled keys, 255-byte keys/strings, empty key/string, int32 extremes, JSON-hostile and multi-byte strings, realistic Slippi shapes, random trees) and encoded with the harness's own UBJSON encoder into replays of several versions. Oracle: (1) game.metadata iterates to the same ordered tree; (2) slippi::write reproduces the file; (3) metadata.json inside the .slpp (extracted with an independent tar reader, parsed with an order-aware JSON parser) is the same ordered tree, or null when absent; (4) the game read back from .slpp has the same ordered tree and serialises to the original bytes; (5) no metadata is reported as None before and after the .slpp trip. One evaluation = one tree. distinct = shape x depth x size classes.".into()
+		"metadata trees over {string <= 255 bytes of UTF-8, int32, map} are generated (absent, empty, nesting chains 2..127 deep, wide maps, hundreds of sibling sub-maps, reverse-sorted and shuffled keys, 255-byte keys/strings, empty key/string, int32 extremes, JSON-hostile and multi-byte strings, realistic Slippi shapes, random trees) and encoded with the harness's own UBJSON encoder into replays of several versions. Oracle: (1) game.metadata iterates to the same ordered tree; (2) slippi::write reproduces the file; (3) metadata.json inside the .slpp (extracted with an independent tar reader, parsed with an order-aware JSON parser) is the same ordered tree, or null when absent; (4) the game read back from .slpp (through whole / 3-byte / 8192-byte / random short reads) has the same ordered tree and serialises to the original bytes; (5) no metadata is reported as None before and after the .slpp trip. One evaluation = one tree. distinct = shape x depth x size classes.".into()
 	}
 	fn assumptions(&self) -> Vec<String> {
 		vec!["the harness does not enable serde_json/preserve_order; serde_json::Map iteration order is whatever peppi's build gives it".into(), "nesting is bounded by 127 (serde_json's recursion limit, which .slpp imposes)".into()]
@@ -170,7 +170,13 @@ impl Monitor for C16 {
 					},
 					Err(e) => out.violate("slpp-not-a-tar", format!("{}: {}", desc, e), Some(&bytes)),
 				}
-				match common::slpp_read(&arch, false) {
+				let sched = match idx % 4 {
+					0 => crate::iofault::Policy::Whole,
+					1 => crate::iofault::Policy::Fixed(3),
+					2 => crate::iofault::Policy::Fixed(8192),
+					_ => crate::iofault::Policy::Random(700, idx as u64),
+				};
+				match common::slpp_read_src(crate::iofault::Src::new(std::sync::Arc::new(arch.clone()), sched), false) {
 					Ok(g2) => {
 						let got2 = g2.metadata.as_ref().map(meta_of).transpose().unwrap_or(None);
 						if got2 != tree {
